@@ -189,6 +189,69 @@ def elem_class(e) -> str:
 
 
 PARSER_STATE_SIG = {'unit': 'DataElementParser', 'how': 'nesting_counter_not_restored_after_parse'}
+_DEEPEST = {}
+
+
+def deepest_element() -> bytes:
+    """Spec encoding of the most deeply nested list a FRESH parser accepts (found by trying).  Parsed by a parser
+    straight after another element, it tells - through the public API alone - whether that element left nesting levels
+    behind: then this one no longer fits."""
+    if 'b' not in _DEEPEST:
+        from bumble.sdp import DataElementParser
+
+        best = ref_de(nested(1))
+        for d in range(2, 80):
+            b = ref_de(nested(d))
+            try:
+                DataElementParser(b).parse_next()
+            except Exception:
+                break
+            best = b
+        _DEEPEST['b'] = best
+    return _DEEPEST['b']
+
+
+def limit_still_enforced(prefix: bytes, count: int = 1) -> str | None:
+    """After the element(s) in `prefix`, an element nested one level beyond the limit must still be refused (a parser
+    that hands back MORE nesting levels than it took lets a later element nest deeper than allowed)."""
+    from bumble.sdp import DataElementParser
+
+    deepest = deepest_element()
+    too_deep = bytes([0x35, len(deepest)]) + deepest if len(deepest) < 256 else None
+    if too_deep is None:
+        return None
+    try:
+        DataElementParser(too_deep).parse_next()
+        return None  # a fresh parser accepts it: there is no limit to speak of
+    except Exception:
+        pass
+    parser = DataElementParser(prefix + too_deep)
+    try:
+        for _ in range(count):
+            parser.parse_next()
+    except Exception:
+        return None
+    try:
+        parser.parse_next()
+    except Exception:
+        return None
+    return 'an element nested one level beyond the limit is accepted after it: the parser handed back more nesting levels than it took'
+
+
+def parser_left_clean(parser) -> str | None:
+    """The parser has just returned the element(s) under test and the deepest acceptable element follows in its buffer:
+    it must parse, and then the buffer must be at its end."""
+    try:
+        d = parser.parse_next()
+    except Exception as x:
+        return f'a following element nested to the limit no longer parses ({cm.exc_name(x)}: {x}): the parser kept nesting levels of the element before'
+    if bytes(fresh_de(d)) != deepest_element():
+        return 'the following element (nested to the limit) parsed to something else: the parser is not positioned at the end of the element before'
+    try:
+        parser.parse_next()
+    except Exception:
+        return None
+    return 'the parser found yet another element after the end of its buffer'
 
 
 def eval_element(e, label: str):
@@ -207,7 +270,7 @@ def eval_element(e, label: str):
         p = DataElement.from_bytes(ref)
         end, p_off = DataElement.parse_from_bytes(b'\x00\x00\x00' + ref + b'\x35\x00', 3)
         # the parser object itself: every internal counter must be back where it started
-        parser = DataElementParser(ref)
+        parser = DataElementParser(ref + deepest_element())
         p_direct = parser.parse_next()
     except Exception as x:
         return ('sdp_element', {'how': f'exception:{cm.exc_name(x)}', 'stage': 'parse'}, f'{label}: serialises to {cm.short(ref)} but parsing raised {cm.exc_name(x)}: {x}')
@@ -218,8 +281,9 @@ def eval_element(e, label: str):
         return ('sdp_element', {'how': 'parsed_value_differs'}, f'{label}: bytes->parse: {r}')
     if end != 3 + len(ref):
         return ('sdp_element', {'how': 'end_offset'}, f'{label}: parse_from_bytes consumed up to {end}, element ends at {3 + len(ref)}')
-    if parser.depth != 0 or parser.offset != len(ref):
-        return ('sdp_parser_state', None, f'{label}: after parsing one complete element ({cm.short(ref)}) the parser is left with depth={parser.depth} offset={parser.offset}/{len(ref)}; a parser that has finished a top-level element must be at depth 0')
+    left = parser_left_clean(parser) or limit_still_enforced(ref)
+    if left:
+        return ('sdp_parser_state', None, f'{label}: after parsing one complete element ({cm.short(ref)}) with a parser: {left}')
     try:
         again = bytes(fresh_de(p))
         direct = bytes(p_off)
@@ -350,7 +414,7 @@ def check_back_to_back(rec: Rec, items):
         n += 1
         case = {'unit': 'de_b2b', 'labels': [l for l, _ in g]}
         try:
-            parser = DataElementParser(data)
+            parser = DataElementParser(data + deepest_element())
             bad = None
             for label, e in g:
                 d = parser.parse_next()
@@ -358,11 +422,10 @@ def check_back_to_back(rec: Rec, items):
                 if r:
                     bad = ('sdp_element', f'{label} (parsed after {g[0][0]}...): {r}')
                     break
-                if parser.depth != 0:
-                    bad = ('sdp_parser_state', f'after {label} the shared parser is at depth {parser.depth}, not 0')
-                    break
-            if bad is None and parser.offset != len(data):
-                bad = ('sdp_element', f'parser stops at {parser.offset} of {len(data)}')
+            if bad is None:
+                left = parser_left_clean(parser)
+                if left:
+                    bad = ('sdp_parser_state', f'after {[l for l, _ in g]} with one parser: {left}')
         except Exception as x:
             bad = ('sdp_element', f'values {[l for l, _ in g]} each serialise and parse alone, but parsing them back-to-back with one parser raised {cm.exc_name(x)}: {x}')
         if bad is None:
@@ -536,18 +599,18 @@ def check_pdu_attribute_lists(rec: Rec):
                     rec.bad(key, 'sdp_pdu_list', dict(sig, how='bytes_differ_from_spec_encoding'), f'{cls.__name__} {label}: {cm.bytes_diff(ref, wire)}', case)
                     continue
                 p = sdp.SDP_PDU.from_bytes(ref)
-                parser = sdp.DataElementParser(getattr(p, field))
+                parser = sdp.DataElementParser(bytes(getattr(p, field)) + deepest_element())
                 d = parser.parse_next()
                 r = cmp_de(e, d)
-                state = (parser.depth, parser.offset == len(body))
+                state = parser_left_clean(parser)
                 again = bytes(cls(transaction_id=p.transaction_id, **{field: bytes(fresh_de(d)), 'continuation_state': p.continuation_state}))
             except Exception as x:
                 rec.bad(key, 'sdp_pdu_list', dict(sig, how=f'exception:{cm.exc_name(x)}'), f'{cls.__name__} carrying {label}: serialises, but reading the list back raised {cm.exc_name(x)}: {x}', case)
                 continue
             if r or again != ref:
                 rec.bad(key, 'sdp_pdu_list', dict(sig, how='mismatch'), f'{cls.__name__} {label}: {r or cm.bytes_diff(ref, again)}', case)
-            elif state != (0, True):
-                rec.bad(key, 'sdp_parser_state', PARSER_STATE_SIG, f'{cls.__name__} {label}: parser left at depth {state[0]}', case)
+            elif state:
+                rec.bad(key, 'sdp_parser_state', PARSER_STATE_SIG, f'{cls.__name__} {label}: {state}', case)
             else:
                 rec.ok(key)
 
